@@ -396,16 +396,16 @@ func (env *Env) evalBin(x EBin) Val {
 		return boolv(t)
 	case "<", "<=", ">", ">=":
 		if l.Sort == "Str" {
-			e.ctx.Global("str.lt", "(declare-fun str.lt (Str Str) Bool)")
+			e.ctx.Global("gs.lt", "(declare-fun gs.lt (Str Str) Bool)")
 			switch x.Op {
 			case "<":
-				return boolv(sx("str.lt", l.T, r.T))
+				return boolv(sx("gs.lt", l.T, r.T))
 			case ">":
-				return boolv(sx("str.lt", r.T, l.T))
+				return boolv(sx("gs.lt", r.T, l.T))
 			case "<=":
-				return boolv(not(sx("str.lt", r.T, l.T)))
+				return boolv(not(sx("gs.lt", r.T, l.T)))
 			default:
-				return boolv(not(sx("str.lt", l.T, r.T)))
+				return boolv(not(sx("gs.lt", l.T, r.T)))
 			}
 		}
 		return boolv(sx(x.Op, l.T, r.T))
@@ -618,7 +618,7 @@ func (env *Env) evalIndex(x EIndex) Val {
 		return buildAll(at.Elem(), ts)
 	case KScalar:
 		if v.Sort == "Str" {
-			return intv(sx("str.at", v.T, i.T))
+			return intv(sx("gs.at", v.T, i.T))
 		}
 		if v.Typ != nil {
 			if _, ok := under(v.Typ).(*types.Map); ok {
@@ -713,7 +713,7 @@ func (env *Env) evalCall(x ECall) Val {
 			return intv(num(under(v.Typ).(*types.Array).Len()))
 		case KScalar:
 			if v.Sort == "Str" {
-				return intv(sx("str.len", v.T))
+				return intv(sx("gs.len", v.T))
 			}
 			if v.Typ != nil {
 				if _, ok := under(v.Typ).(*types.Map); ok {
@@ -805,8 +805,8 @@ func (env *Env) evalCall(x ECall) Val {
 	case "str":
 		// str(b): the string with the bytes of sequence b (uninterpreted constructor)
 		v := env.toSeq(env.eval(x.Args[0]))
-		e.ctx.Global("str.ofseq", "(declare-fun str.ofseq ((Array Int Int) Int Int) Str)")
-		return Val{K: KScalar, Sort: "Str", T: sx("str.ofseq", v.Fs[0].T, v.Fs[1].T, v.Fs[2].T)}
+		e.ctx.Global("gs.ofseq", "(declare-fun gs.ofseq ((Array Int Int) Int Int) Str)")
+		return Val{K: KScalar, Sort: "Str", T: sx("gs.ofseq", v.Fs[0].T, v.Fs[1].T, v.Fs[2].T)}
 	}
 	sf, ok := e.contracts.Specs[x.Fn]
 	if !ok {
